@@ -7,8 +7,10 @@ pub mod c07;
 pub mod c08;
 pub mod c09;
 pub mod c10;
+pub mod c11;
 pub mod c12;
 pub mod c13;
+pub mod c14;
 pub mod c15;
 
 use crate::engine::PropertyDef;
@@ -24,11 +26,13 @@ pub fn def(id: &str) -> Option<PropertyDef> {
         "C08" => c08::def(),
         "C09" => c09::def(),
         "C10" => c10::def(),
+        "C11" => c11::def(),
         "C12" => c12::def(),
         "C13" => c13::def(),
+        "C14" => c14::def(),
         "C15" => c15::def(),
         _ => return None,
     })
 }
 
-pub const ALL: &[&str] = &["C01", "C02", "C03", "C05", "C06", "C07", "C08", "C09", "C10", "C12", "C13", "C15"];
+pub const ALL: &[&str] = &["C01", "C02", "C03", "C05", "C06", "C07", "C08", "C09", "C10", "C11", "C12", "C13", "C14", "C15"];
